@@ -88,6 +88,7 @@ def run(ck):
     cols_rule(ck, prog)   # the number of committed columns holds every coefficient of the composition polynomial
     from . import derived
     derived.run(ck, prog, None)
+    periodic_point_rule(ck, prog)
     # DEDUP: `dedup` computes a set (and `last` a maximum) only on a sorted vector — table sizes in the constraint evaluators
     from .stale import unsorted_dedup_sites
     ck.rule("DEDUP", "every Vec::dedup in the constraint-evaluation code is applied to a vector sorted on every path before it")
@@ -258,3 +259,39 @@ def folding(ck, prog):
         ok = ok or (any(n.endswith("evaluate_aux_transition") for n in ns) and any(n.endswith("evaluate_main_transition") for n in ns))
     ck.ob("F", "fragment_full:row-depends-on-both", ok or not stores,
           "the row written to the evaluation table depends on both transition terms", loc=ff.loc())
+
+
+def periodic_point_rule(ck, prog, rule="PERIODIC"):
+    """The verifier evaluates every periodic column's polynomial at x^(n / cycle length): a function of the drawn point and of that column
+    alone. Where the per-column evaluation is a closure (`polys.iter().map(|poly| ..)`), it must not carry scalar state from one column to
+    the next: a field element or integer captured by MUTABLE reference (a running power of x that is squared up and never re-initialised —
+    seed C17-R) makes the value of a column depend on the columns listed before it, and an honest proof with a longer cycle listed after
+    a shorter one is rejected. (Capturing a collection mutably — pushing results — is not state of this kind.)"""
+    ck.rule(rule, "the per-column evaluation of periodic polynomials in the verifier carries no scalar state from one column to the next")
+    f = prog.fn_opt("winter_verifier::evaluator::evaluate_constraints")
+    if f is None:
+        ck.note(f"{rule}: winter_verifier::evaluator::evaluate_constraints not available in this program; not decided")
+        return
+    ck.saw(f)
+    n = 0
+    for b, t in f.calls():
+        for cid in f.closure_args(t):
+            c = prog.fns.get(cid)
+            if c is None or not any((callee_name(tt) or "").endswith("polynom::eval") for _, tt in c.calls()):
+                continue
+            n += 1
+            stateful = []
+            for bb, i, st in c.assigns():
+                rv = st["rv"]
+                for k in ("a",):
+                    o = rv.get(k)
+                    p = (o.get("copy") or o.get("move")) if isinstance(o, dict) else None
+                    if p and p.get("l") == 1 and any(isinstance(e, dict) and e.get("upvar") for e in p.get("p", [])):
+                        ty = c.local_ty(st["lhs"]["l"]).replace(" ", "")
+                        if ty.startswith("&mut") and not any(x in ty for x in ("Vec<", "[", "BTree", "String")):
+                            stateful.append(ty)
+            ck.ob(rule, f"evaluate_constraints:periodic-closure#{n}", not stateful,
+                  "the closure that evaluates a periodic column's polynomial at x^(n / cycle length) captures no scalar by mutable reference", loc=c.loc(),
+                  detail=None if not stateful else f"captured mutably: {sorted(set(stateful))}: the evaluation point of a column depends on the columns before it")
+    if n == 0:
+        ck.note(f"{rule}: no closure evaluating periodic polynomials in evaluate_constraints (an explicit loop?); not decided")
